@@ -33,15 +33,42 @@ fn main() {
         return;
     }
     let f = std::fs::File::open(&args[2]).expect("case file");
+    let lines: Vec<String> = std::io::BufReader::new(f)
+        .lines()
+        .map(|l| l.unwrap().trim().to_string())
+        .filter(|l| !l.is_empty() && !l.starts_with('#'))
+        .collect();
+    // watchdog: a case that does not return (a deadlock in the library, say) must not take the whole run with it.  The
+    // hanging case is reported as such, the cases after it as skipped (the driver re-runs those in a fresh process).
+    let limit: u64 = std::env::var("VERIF_CASE_TIMEOUT").ok().and_then(|v| v.parse().ok()).unwrap_or(30);
+    let progress = std::sync::Arc::new((std::sync::atomic::AtomicUsize::new(0), std::sync::atomic::AtomicU64::new(0)));
+    let t0 = std::time::Instant::now();
+    {
+        let progress = progress.clone();
+        let total = lines.len();
+        std::thread::spawn(move || loop {
+            std::thread::sleep(std::time::Duration::from_millis(500));
+            let idx = progress.0.load(std::sync::atomic::Ordering::SeqCst);
+            let started = progress.1.load(std::sync::atomic::Ordering::SeqCst);
+            if idx < total && t0.elapsed().as_millis() as u64 > started + limit * 1000 {
+                // stdout is only written by the main thread between cases, which is stuck: safe to write here
+                let out = std::io::stdout();
+                let mut out = out.lock();
+                let _ = writeln!(out, "HARNESS-PANIC hang: the case did not return within {} s", limit);
+                for _ in idx + 1..total {
+                    let _ = writeln!(out, "HARNESS-SKIPPED");
+                }
+                let _ = out.flush();
+                std::process::exit(0);
+            }
+        });
+    }
     let out = std::io::stdout();
-    let mut out = std::io::BufWriter::new(out.lock());
-    for line in std::io::BufReader::new(f).lines() {
-        let line = line.unwrap();
-        let line = line.trim();
-        if line.is_empty() || line.starts_with('#') {
-            continue;
-        }
+    for (i, line) in lines.iter().enumerate() {
+        progress.1.store(t0.elapsed().as_millis() as u64, std::sync::atomic::Ordering::SeqCst);
+        progress.0.store(i, std::sync::atomic::Ordering::SeqCst);
         let r = util::catch(|| dispatch(&args[1], line));
+        let mut out = out.lock();
         match r {
             Err(msg) => writeln!(out, "HARNESS-PANIC {}", msg.replace('\n', " ")).unwrap(),
             Ok(Some(obs)) => writeln!(out, "{}", obs).unwrap(),
@@ -52,4 +79,5 @@ fn main() {
         }
         out.flush().unwrap();
     }
+    progress.0.store(lines.len(), std::sync::atomic::Ordering::SeqCst);
 }
